@@ -48,7 +48,10 @@ def mk_fn(sig, rec, ret='tuple'):
     src += '    vals = (%s)%s\n' % (bound, ' + tuple(args)' if sig['varargs'] else '')
     src += '    kw = %s\n' % ('tuple(sorted(kwargs.items()))' if sig['varkw'] else '()')
     src += '    _rec.log.append((vals, kw))\n'
-    src += '    if "RAISE" in vals or ("RAISE" in [v for _, v in kw]):\n        raise ValueError("asked to raise")\n'
+    src += '    _all = list(vals) + [v for _, v in kw]\n'
+    src += '    if any(isinstance(v, str) and v == "RAISE" for v in _all):\n        raise ValueError("asked to raise")\n'
+    src += '    if any(isinstance(v, str) and v == "RAISE0" for v in _all):\n        raise ValueError\n'            # exceptions come with no argument ...
+    src += '    if any(isinstance(v, str) and v == "RAISE2" for v in _all):\n        raise KeyError("bad", 3)\n'     # ... or with several
     src += {'tuple': '    return ("f", vals, kw)\n', 'none': '    return None\n', 'zero': '    return 0\n', 'empty': '    return []\n', 'false': '    return False\n'}[ret]
     g = {'_rec': rec}
     exec(src, g)
@@ -77,7 +80,7 @@ def valid_calls(sig, rng, cap=30):
         for r in range(len(opt) + 1):
             for sub in itertools.combinations(opt, r):
                 kwn = must + list(sub)
-                extra_a = [0, 2] if (sig['varargs'] and npos == n) else [0]
+                extra_a = [0, 1, 2] if (sig['varargs'] and npos == n) else [0]
                 extra_k = [0, 1, 2] if sig['varkw'] else [0]
                 for ea in extra_a:
                     for ek in extra_k:
@@ -207,6 +210,7 @@ def run_sig(case, ctx):
     # ---- try_* fallback exactly when f raises
     tries = [s for s in stack if s.startswith('try_')]
     supplied = list(a) + list(k.values())
+    FLAG = case.get('raise_flag', 'RAISE')
     if len(tries) == 1 and supplied:
         t = tries[0]
         # make the call raise by flagging one supplied argument (not the first for try_back)
@@ -216,19 +220,19 @@ def run_sig(case, ctx):
             if not first_supplied or len(supplied) < 2:
                 a2 = None
             elif len(a) >= 2:
-                a2[-1] = 'RAISE'
+                a2[-1] = FLAG
             else:
                 key = [x for x in k if not (len(a) == 0 and x == NAMES[0])]
                 if key:
-                    k2[key[-1]] = 'RAISE'
+                    k2[key[-1]] = FLAG
                 else:
                     a2 = None
         else:
             if a:
-                a2[-1] = 'RAISE'
+                a2[-1] = FLAG
             else:
-                k2[list(k)[-1]] = 'RAISE'
-        if a2 is not None and not (has_ks and any(v == 'RAISE' for x, v in k2.items() if x in extra_kw)):
+                k2[list(k)[-1]] = FLAG
+        if a2 is not None and not (has_ks and any(v == FLAG for x, v in k2.items() if x in extra_kw)):
             w2 = wrap(f, stack)
             st3, g3 = ctx.call(w2, *a2, **k2)
             if t == 'try_back':
@@ -244,11 +248,11 @@ def run_sig(case, ctx):
     elif not tries and supplied and not ('kwargs_support' in stack and sig['varkw']):
         a2, k2 = list(a), dict(k)
         if a:
-            a2[0] = 'RAISE'
+            a2[0] = FLAG
         else:
-            k2[list(k)[0]] = 'RAISE'
+            k2[list(k)[0]] = FLAG
         st5, g5 = ctx.call(wrap(f, stack), *a2, **k2)
-        ctx.check('try_fallback_iff_raises', st5 == 'exc' and isinstance(g5, ValueError), lambda: 'no try_* in %s but a raising call returned %s %r' % (stack, st5, g5))
+        ctx.check('try_fallback_iff_raises', st5 == 'exc' and isinstance(g5, (ValueError, KeyError)), lambda: 'no try_* in %s but a raising call returned %s %r' % (stack, st5, g5))
     if len(stack) >= 2 and k:
         ctx.mark_nontrivial(case)
     ctx.cls('stack_depth:%d' % len(stack))
@@ -268,6 +272,8 @@ def run_cache(case, ctx):
     for ci, idx in enumerate(case['seq']):
         call = case['pool'][idx]
         a, k = list(call['a']), dict(call['k'])
+        if ci % 2 and len(k) > 1:
+            k = dict(reversed(list(k.items())))       # the same combination with its keywords written in another order
         key = (tuple(a), frozenset(k.items()))
         n0 = len(rec.log)
         st, got = ctx.call(w, *a, **k)
@@ -337,8 +343,10 @@ def run(spec, ctx):
                 case = {'kind': 'sig', 'sig': sig, 'stack': stack, 'call': call}
                 if rng.random() < 0.3:
                     # other kinds of argument values: None, falsy values, numpy integer scalars
-                    sub = lambda v: rng.choice([v, v, {'$np': ['int64', v]}, {'$np': ['int32', v]}, None, None, 0, '', False])
+                    pool_ = [[3, 4], [], [7]] if 'loop_list' not in stack else []      # a list is one argument, also as the only surplus positional
+                    sub = lambda v: rng.choice([v, v, {'$np': ['int64', v]}, {'$np': ['int32', v]}, None, None, 0, '', False] + pool_)
                     case['call'] = {'a': [sub(v) for v in call['a']], 'k': {n_: sub(v) for n_, v in call['k'].items()}}
+                case['raise_flag'] = rng.choice(['RAISE', 'RAISE', 'RAISE0', 'RAISE2'])
                 ctx.case(case)
                 ctx.run_case(case, run_case)
                 if ctx.full():
